@@ -223,7 +223,7 @@ func energyFile(rows []row, uptoGroup int, genesis int64, salt int64) string {
 }
 
 func waitTicks(target uint64) bool {
-	dl := time.Now().Add(15 * time.Second)
+	dl := time.Now().Add(30 * time.Second)
 	for client.VerifTicks() < target {
 		if time.Now().After(dl) {
 			return false
@@ -310,7 +310,12 @@ func (x *runner) delivered() error {
 	if err := x.relay.Barrier(); err != nil {
 		return err
 	}
-	dl := time.Now().Add(8 * time.Second)
+	return x.handledAll()
+}
+
+// handledAll waits until the server's udp.done count equals the relay's forwarded count.
+func (x *runner) handledAll() error {
+	dl := time.Now().Add(30 * time.Second)
 	for {
 		f := x.relay.Forwarded()
 		h := server.VerifUDPHandled() - x.base
@@ -321,7 +326,7 @@ func (x *runner) delivered() error {
 			return fmt.Errorf("server handled %d datagrams but the relay forwarded only %d", h, f)
 		}
 		if time.Now().After(dl) {
-			return fmt.Errorf("server handled %d of %d forwarded datagrams within 8s (loopback loss?)", h, f)
+			return fmt.Errorf("server handled %d of %d forwarded datagrams within 30s (loopback loss?)", h, f)
 		}
 		time.Sleep(200 * time.Microsecond)
 	}
@@ -336,7 +341,7 @@ func (x *runner) writeGroup(env *drv.ClientEnv, g int) error {
 	}
 	t := client.VerifTicks()
 	if !waitTicks(t + 2) {
-		return fmt.Errorf("report loop did not advance 2 ticks within 15s")
+		return fmt.Errorf("report loop did not advance 2 ticks within 30s")
 	}
 	return x.relay.Barrier()
 }
@@ -387,7 +392,17 @@ func runScenario(sc *scenario, b run.Batch, r *ev.Result) (fatal bool) {
 	dir := filepath.Join(b.Dir, fmt.Sprintf("s%d", sc.Index))
 	defer os.RemoveAll(dir)
 	arrived0 := drv.RotationArrive.Load()
-	w, err := drv.NewWorld(filepath.Join(dir, "srv"), rng)
+	var w *drv.World
+	var err error
+	for try := 0; try < 3; try++ {
+		// set-up only: the server drops HTTP connections after 2.5 s of wall time, which a
+		// starved machine can exceed; a fresh directory is tried again
+		arrived0 = drv.RotationArrive.Load()
+		if w, err = drv.NewWorld(filepath.Join(dir, fmt.Sprintf("srv%d", try)), rng); err == nil {
+			break
+		}
+		r.Count("world_setup_retried", 1)
+	}
 	if err != nil {
 		return inconc("cannot start world: %v", err)
 	}
@@ -400,7 +415,14 @@ func runScenario(sc *scenario, b run.Batch, r *ev.Result) (fatal bool) {
 	}
 	x.w = w
 	defer func() { w.Close() }()
-	dev, err := w.AddDevice(1+uint32(rng.Intn(1<<20)), 1<<40)
+	devID := 1 + uint32(rng.Intn(1<<20))
+	var dev *drv.Dev
+	for try := 0; try < 3; try++ {
+		if dev, err = w.AddDevice(devID+uint32(try), 1<<40); err == nil {
+			break
+		}
+		r.Count("world_setup_retried", 1)
+	}
 	if err != nil {
 		return inconc("%v", err)
 	}
@@ -474,9 +496,10 @@ func runScenario(sc *scenario, b run.Batch, r *ev.Result) (fatal bool) {
 		// one scenario in eight: every original is overtaken by its own retransmission
 		// (held in the network until just before the final round, while a sync round
 		// completes and its retransmissions are delivered)
-		sc.LateOrig = rng.Intn(8) == 0
+		sc.LateOrig = rng.Intn(8) == 0 || sc.Index%20 == 7
 		if sc.LateOrig {
 			sc.Event, sc.LateGroup, sc.InitialG0, nr = "", false, false, 0
+			sc.Decoys = 0 // originals certainly travel through the relay, whatever primary the client draws
 			sc.Now1 = sc.Now0
 			var fates []TCPFate
 			for j := 0; j < 1+sc.Decoys; j++ {
@@ -640,11 +663,13 @@ func runScenario(sc *scenario, b run.Batch, r *ev.Result) (fatal bool) {
 	if strings.Contains(sc.Event, "restart") {
 		x.trace("server goes down")
 		x.relay.SetPhase("down", nil)
-		if err := x.delivered(); err != nil {
-			return inconc("before restart: %v", err)
-		}
+		// cut the path first (nothing is forwarded from here on), then let the server
+		// finish what it was already handed: no datagram can fall between barrier and shutdown
 		x.relay.SetTarget(0)
 		x.proxy.SetTarget(0)
+		if err := x.handledAll(); err != nil {
+			return inconc("before restart: %v", err)
+		}
 		if err := w.Srv.Close(); err != nil {
 			return inconc("server close: %v", err)
 		}
